@@ -1,9 +1,10 @@
 /-!
 # C05 kernel 2 — relative type names (core only)
 
-`refName` mirrors `contextRefName` / `pathToPackage` of
-`/repo/internal/j5s/protoprint/protoprint.go` (after fix b1156d6: the last path element is
-never stripped).
+`refName` mirrors `contextRefName` / `pathToPackage` / `declaresName` of
+`/repo/internal/j5s/protoprint/protoprint.go` (after the fixes b1156d6: the last path element is
+never stripped, and the shadowing fix: a name that an enclosing scope would capture is printed fully
+qualified with a leading dot).
 
 `resolve` is the reader side: protobuf's relative-name resolution (innermost scope outward, the
 first component decides, C++ style) over a symbol table, written from the language
@@ -59,10 +60,41 @@ def stripCommon : Path → Path → Path
   | r :: rs, c :: cs => if rs ≠ [] ∧ r = c then stripCommon rs cs else r :: rs
   | r, _ => r
 
-/-- `contextRefName`: `ctx` / `tgt` are the paths of the context element and of the referenced
-type below their packages (`pathToPackage`), `ctxPkg` / `tgtPkg` the packages. -/
-def refName (ctxPkg ctx tgtPkg tgt : Path) : Path :=
+/-- the shortened (or, across packages, package-qualified) relative name: `ctx` / `tgt` are the
+paths of the context element and of the referenced type below their packages (`pathToPackage`),
+`ctxPkg` / `tgtPkg` the packages. -/
+def shortName (ctxPkg ctx tgtPkg tgt : Path) : Path :=
   if ctxPkg ≠ tgtPkg then tgtPkg ++ tgt else stripCommon tgt ctx
+
+/-- a printed type name: `abs` = written with a leading dot (fully qualified) -/
+structure Name where
+  abs : Bool
+  parts : Path
+  deriving DecidableEq, Repr
+
+/-- prefixes `l.take n, …, l.take 1` -/
+def takesDown (l : Path) : Nat → List Path
+  | 0 => []
+  | n + 1 => l.take (n + 1) :: takesDown l n
+
+/-- `declaresName`: the scope with full path `scope` declares something called `first` -/
+def declares (t : Tab) (scope : Path) (first : String) : Bool := (t.find (scope ++ [first])).isSome
+
+/-- the scopes from the context up to (not including) the one the short name is relative to:
+`ctx` itself, its parent, …, depth `k + 1` -/
+def innerScopes (pkg ctx : Path) (k : Nat) : List Path :=
+  ((takesDown ctx ctx.length).take (ctx.length - k)).map (pkg ++ ·)
+
+/-- `contextRefName` -/
+def refName (t : Tab) (ctxPkg ctx tgtPkg tgt : Path) : Name :=
+  if ctxPkg ≠ tgtPkg then ⟨false, tgtPkg ++ tgt⟩
+  else
+    match stripCommon tgt ctx with
+    | [] => ⟨false, []⟩
+    | first :: rest =>
+      if (innerScopes ctxPkg ctx (tgt.length - (first :: rest).length)).any (fun pre => declares t pre first)
+      then ⟨true, tgtPkg ++ tgt⟩
+      else ⟨false, first :: rest⟩
 
 /-! ## the reader side -/
 
@@ -82,11 +114,6 @@ def resolveRel (t : Tab) (pre : Path) (first : String) (rest : Path) : Res :=
     else match t.find (pre ++ first :: rest) with
       | none => .sentinel
       | some k' => .found (pre ++ first :: rest) k'
-
-/-- prefixes `l.take n, …, l.take 1` -/
-def takesDown (l : Path) : Nat → List Path
-  | 0 => []
-  | n + 1 => l.take (n + 1) :: takesDown l n
 
 /-- the lexical scopes of an element with path `scope` in package `pkg`, innermost first:
 the enclosing messages (or the service), then the package and its parents, then the root. -/
@@ -116,7 +143,16 @@ def resolve (t : Tab) (pkg scope : Path) (onlyTypes : Bool) (name : Path) : Opti
     | .found p k => if (if onlyTypes then k.isType else k == .msg) then some p else none
     | _ => none
 
-/-! ## the hypothesis that excludes shadowing -/
+/-- a printed name, relative or fully qualified (`result.resolve` with a leading dot looks the
+name up directly) -/
+def resolveName (t : Tab) (pkg scope : Path) (onlyTypes : Bool) (n : Name) : Option Path :=
+  if n.abs then
+    match t.find n.parts with
+    | some k => if (if onlyTypes then k.isType else k == .msg) then some n.parts else none
+    | none => none
+  else resolve t pkg scope onlyTypes n.parts
+
+/-! ## the hypothesis that excludes shadowing (needed across packages only) -/
 
 /-- a declaration at `pre.first` stops the search there -/
 def captures (t : Tab) (onlyTypes : Bool) (pre : Path) (first : String) (qualified : Bool) : Bool :=
@@ -131,7 +167,7 @@ def home (ctxPkg ctx tgtPkg tgt : Path) : Path :=
 
 /-- No scope that is searched before `home` declares the first component of the printed name. -/
 def NoShadow (t : Tab) (onlyTypes : Bool) (ctxPkg ctx tgtPkg tgt : Path) : Bool :=
-  match refName ctxPkg ctx tgtPkg tgt with
+  match shortName ctxPkg ctx tgtPkg tgt with
   | [] => true
   | first :: rest =>
     ((scopes ctxPkg ctx).takeWhile (· ≠ home ctxPkg ctx tgtPkg tgt)).all
